@@ -79,7 +79,12 @@ class Env(object):
         self.nvalid = 0
         self.depth = 0
 
-    def params(self, charset):
+    def params(self, charset, exclude=None):
+        p = self._params(charset)
+        p.set('exclude_external_codes', exclude)
+        return p
+
+    def _params(self, charset):
         import pyx12.params
         if self.spec.get('shared_param') and self.depth == 0:
             # (an operation started re-entrantly gets its own object: changing the caller's parameters in mid-validation
@@ -106,7 +111,7 @@ class Env(object):
 
 def do_validate(env, op, callback=None):
     text = env.docs[op['doc']]
-    param = env.params(op.get('charset', 'E'))
+    param = env.params(op.get('charset', 'E'), op.get('exclude'))
     env.depth += 1
     try:
         r = _validate(env, op, text, param, callback)
@@ -140,10 +145,15 @@ def gen_context(env, op):
     rd = pyx12.x12context.X12ContextReader(env.params('E'), pyx12.error_handler.errh_null(),
                                            seams.SimSource(env.docs[op['doc']], op.get('plan')))
     out = []
+    events = []
     for node in rd.iter_segments(op.get('loop_id')):
         out.append(snapshot(node))
+        # the loop start/end event stream is an observable output of iteration too
+        events.append([[e['type'], e['id']] for e in node.iterate_loop_segments()])
+        if op.get('copy_trees') and node.type == 'loop':
+            node.copy()          # what a consumer does before editing (README pattern); must not influence anything later
         yield None
-    yield {'nodes': out}
+    yield {'nodes': out, 'events': events}
 
 
 def drain(gen):
